@@ -6,6 +6,7 @@ pub mod c09;
 pub mod c11;
 pub mod c12;
 pub mod c13;
+pub mod c16;
 pub mod common;
 pub mod par;
 
@@ -30,6 +31,7 @@ pub fn all() -> Vec<Prop> {
         Prop { id: "C11", level: "exploration", run: c11::run, replay: c11::replay },
         Prop { id: "C12", level: "fault_enumeration", run: c12::run, replay: c12::replay },
         Prop { id: "C13", level: "exploration", run: c13::run, replay: c13::replay },
+        Prop { id: "C16", level: "fault_enumeration", run: c16::run, replay: c16::replay },
     ]
 }
 
